@@ -49,6 +49,19 @@ def arith64 : Arith C64 where
   setIm c v := ⟨c.re, f64OfInt v⟩
   roundRe c := roundI64 c.re
   roundIm c := roundI64 c.im
+  neg a := ⟨-a.re, -a.im⟩
+  scale k a := let r := f64OfInt k; ⟨a.re * r, a.im * r⟩
+  divS k a := let r := f64OfInt k; ⟨a.re / r, a.im / r⟩
+  div a b :=
+    -- self * rhs.conj() / rhs.abs2()
+    let cr := b.re; let ci := -b.im
+    let pr := a.re * cr - a.im * ci
+    let pi := a.re * ci + a.im * cr
+    let d := b.re * b.re + b.im * b.im
+    ⟨pr / d, pi / d⟩
+  abs2 a := ⟨a.re * a.re + a.im * a.im, 0.0⟩
+  absq a := let r := (a.re * a.re + a.im * a.im).sqrt; ⟨r * r, 0.0⟩
+  ci := ⟨0.0, 1.0⟩
 
 def arith32 : Arith C32 where
   zero := ⟨0.0, 0.0⟩
@@ -68,5 +81,17 @@ def arith32 : Arith C32 where
   setIm c v := ⟨c.re, f32OfInt v⟩
   roundRe c := roundI64f c.re
   roundIm c := roundI64f c.im
+  neg a := ⟨-a.re, -a.im⟩
+  scale k a := let r := f32OfInt k; ⟨a.re * r, a.im * r⟩
+  divS k a := let r := f32OfInt k; ⟨a.re / r, a.im / r⟩
+  div a b :=
+    let cr := b.re; let ci := -b.im
+    let pr := a.re * cr - a.im * ci
+    let pi := a.re * ci + a.im * cr
+    let d := b.re * b.re + b.im * b.im
+    ⟨pr / d, pi / d⟩
+  abs2 a := ⟨a.re * a.re + a.im * a.im, 0.0⟩
+  absq a := let r := (a.re * a.re + a.im * a.im).sqrt; ⟨r * r, 0.0⟩
+  ci := ⟨0.0, 1.0⟩
 
 end Rlib.Fft
